@@ -1,6 +1,17 @@
 """Level text / notes per property for MANIFEST.json."""
 KERNEL = "Lean 4.33 kernel + axioms {propext, Classical.choice, Quot.sound}; constants translator; correspondence harness/driver (differential testing, not proof); "
 TEXT = {
+    "C18": {
+        "level": "Kernel-checked for every announce URL (with or without a query), every hash / peer id byte string, port and total length: "
+                 "percent-decoding the escaped info-hash gives back exactly the bytes - all 256 byte values, by kernel enumeration (T1); the escaped text "
+                 "contains only letters, digits, * - . _ + %, never & = ? (T2); the request URL keeps everything before the first '?' of the announce URL "
+                 "(T3); the decoded query pairs are the announce URL's own pairs in order, then info_hash = the hash, peer_id, port, uploaded, downloaded, "
+                 "left = total length, event, numwant (T4). Tied to create_url (hook) and to the real TrackerClient::run over loopback HTTP (request "
+                 "target and Host header).",
+        "note": KERNEL + "outside the model, observed by the loopback requests: URL parsing/normalisation in the url crate, reqwest's extend_pairs and "
+                "request line; announce URLs with a fragment are not considered.",
+        "technique": "Lean 4 proof (round trip by induction + 256-value kernel enumeration; split/append lemmas for query pairs) + differential correspondence incl. real HTTP announce",
+    },
     "C05": {
         "level": "Kernel-checked: for every accepted document the hashed bytes are raw_info of the very top-level dictionary (the first that parses) "
                  "from which the other fields are read (T1); on every well-formed document - any number of complete values in front, the dictionary written "
